@@ -527,6 +527,31 @@ def naive_probe(ctx):
         except Exception as e:  # noqa: BLE001
             out.append({"naive": dt.isoformat(), "exception": f"{type(e).__name__}: {e}"})
     ctx.notes["naive_datetime_not_judged"] = out
+    # decoding does not modify the dictionary it is given (the same event / page is decoded again on a Lambda retry or by a caller
+    # that keeps it): JSON form with nested millisecond timestamps, decoded twice
+    import copy as _copy
+    LS0 = W.LS
+    aware = D.datetime(2025, 6, 1, 12, 34, 56, 789000, tzinfo=W.UTC)
+    samples = [LS0.Operation(operation_id="j1", operation_type=LS0.OperationType.STEP, status=LS0.OperationStatus.PENDING, start_timestamp=aware,
+                             step_details=LS0.StepDetails(attempt=1, next_attempt_timestamp=aware)),
+               LS0.Operation(operation_id="j2", operation_type=LS0.OperationType.WAIT, status=LS0.OperationStatus.STARTED, start_timestamp=aware,
+                             wait_details=LS0.WaitDetails(scheduled_end_timestamp=aware))]
+    for op in samples:
+        for enc, dec, nm in ((op.to_json_dict, LS0.Operation.from_json_dict, "from_json_dict"), (op.to_dict, LS0.Operation.from_dict, "from_dict")):
+            d0 = enc()
+            keep = _copy.deepcopy(d0)
+            ctx.case(("decode-twice", op.operation_id, nm))
+            try:
+                first = dec(d0)
+                second = dec(d0)
+            except Exception as e:  # noqa: BLE001
+                ctx.violation("decoder-modifies-input", f"Operation.{nm} cannot decode the same dictionary twice: {type(e).__name__}: {e}",
+                              {"kind": "wire", "op": op.operation_id, "decoder": nm})
+                return
+            if d0 != keep or first != second or first != op:
+                ctx.violation("decoder-modifies-input", f"Operation.{nm} modified the dictionary it was given (or the second decoding differs)",
+                              {"kind": "wire", "op": op.operation_id, "decoder": nm})
+                return
     # ... but the WIRE DICTIONARY (datetime objects, as boto3 delivers and accepts them) carries a datetime as it is: there a naive
     # value comes back unchanged (no zone is attached, no instant moves), in every timestamp field - judged
     LS = W.LS
